@@ -116,6 +116,9 @@ type Client struct {
 	registeredTopicsLock sync.RWMutex
 	messageHandlers      *messageHandlers
 	transactions         *transactions.TransactionStore
+	// Transactions initiated by the gateway. The client and the gateway choose
+	// their MsgIDs independently, hence the separate store.
+	gwTransactions *transactions.TransactionStore
 	msgID                *util.IDSequence
 	conn                 net.Conn
 	state                *util.ClientState
@@ -136,6 +139,7 @@ func NewClient(log util.Logger, cfg *ClientConfig) *Client {
 		registeredTopics: make(map[string]uint16),
 		messageHandlers:  &messageHandlers{},
 		transactions:     transactions.NewTransactionStore(),
+		gwTransactions:   transactions.NewTransactionStore(),
 		state:            &state,
 		stateChangeCh:    make(chan util.ClientState, 1),
 		log:              log,
